@@ -17,6 +17,7 @@ package main
 
 import (
 	"fmt"
+	"os"
 	"sort"
 	"strconv"
 	"strings"
@@ -50,6 +51,13 @@ type c11Query struct {
 	Mixed   bool
 	LongStr bool
 	Frag    *c11Frag
+	// structure of the query (shape counters, index-relative generator, planner correspondence: c11plan.go)
+	Gen      string // "" general generator | "idxrel" index-relative generator
+	OrdCols  []int  // table columns of the ORDER BY list
+	GrpCols  []int  // table columns of the GROUP BY list
+	GroupN   int    // number of leading output columns that are group keys (0 = 1 for kind "group")
+	WhereAll *pexp  // the WHERE predicate whatever the kind (nil = none)
+	Star     bool   // SELECT * (output columns = table columns)
 }
 
 type c11Hist struct {
@@ -81,6 +89,13 @@ type c11Case struct {
 	intxEver bool      // some committed tx wrote more than once to the indexed table (its DML may have used the unreliable in-tx index view)
 	idxLive  []sqlIdx  // indexes created so far
 	hist     []c11Hist // committed states of t by transaction id
+	// c11plan.go
+	snap     [][]c15Val       // rows of t at the last twin check (constants of index-relative predicates, shape counters)
+	snapOK   bool             // no DML since
+	tblSent  bool             // the Lean driver holds the current rows of t (planner correspondence)
+	hot      map[int][]c15Val // hot values of the leading index columns (bulk units)
+	bulkLeft int              // statements of the running bulk unit
+	noIdxRel bool             // VH_C11_IDXREL=0: measurement of the general generator alone
 }
 
 func (c *c11Case) log(s string) { c.script = append(c.script, s) }
@@ -160,6 +175,8 @@ func (c *c11Case) genQuery() *c11Query {
 			targets = sc.colNames(cs)
 		}
 		q.Select = targets
+		q.WhereAll = p
+		q.Star = targets == "*"
 		s := "SELECT "
 		if distinct {
 			s += "DISTINCT "
@@ -208,6 +225,7 @@ func (c *c11Case) genQuery() *c11Query {
 				obs = append(obs, o)
 				q.Ord = append(q.Ord, pos[ci])
 			}
+			q.OrdCols = ocols
 			if len(obs) > 0 {
 				s += " ORDER BY " + strings.Join(obs, ", ")
 				all := true
@@ -247,6 +265,7 @@ func (c *c11Case) genQuery() *c11Query {
 		q.Kind = "count"
 		p, w := where()
 		q.Where = p
+		q.WhereAll = p
 		q.Tmpl = "SELECT COUNT(*) FROM {T} {H}" + w
 		q.NoLimit = "SELECT * FROM {T} {H}" + w
 	case k < 75: // group by
@@ -271,7 +290,8 @@ func (c *c11Case) genQuery() *c11Query {
 				aggs = append(aggs, []string{"MIN", "MAX"}[rng.Intn(2)]+"("+col.Name+")")
 			}
 		}
-		_, w := where()
+		pw, w := where()
+		q.WhereAll, q.GrpCols, q.GroupN = pw, []int{g}, 1
 		gname := sc.Cols[g].Name
 		s := "SELECT " + gname + ", " + strings.Join(aggs, ", ") + " FROM {T} {H}" + w + " GROUP BY " + gname
 		if rng.Intn(4) == 0 {
@@ -290,6 +310,7 @@ func (c *c11Case) genQuery() *c11Query {
 				q.OrdDesc = []bool{false}
 			}
 			q.Ord = []int{0}
+			q.OrdCols = []int{g}
 			q.Total = true
 		}
 		q.Tmpl = s
@@ -366,9 +387,12 @@ func (c *c11Case) genFragQuery() *c11Query {
 	if rng.Intn(4) == 0 {
 		f.Desc = true
 		s += " ORDER BY " + sc.Cols[ix.Cols[0]].Name + " DESC"
+		q.OrdCols, q.OrdDesc, q.Ord = []int{ix.Cols[0]}, []bool{true}, []int{ix.Cols[0]}
 	} else if rng.Intn(4) == 0 {
 		s += " ORDER BY " + sc.Cols[ix.Cols[0]].Name
+		q.OrdCols, q.OrdDesc, q.Ord = []int{ix.Cols[0]}, []bool{false}, []int{ix.Cols[0]}
 	}
+	q.Star, q.WhereAll = true, p
 	if rng.Intn(3) == 0 {
 		f.Limit = rng.Intn(5)
 		s += " LIMIT " + strconv.Itoa(f.Limit)
@@ -450,7 +474,7 @@ func (c *c11Case) cause(q *c11Query, a, b sqlQRes) string {
 		return ":null-boolean-operand"
 	case c.intxIdx:
 		return ":secondary-index-view-in-tx"
-	case c.negZero || (q != nil && q.Where.hasNegZero()):
+	case c.negZero || (q != nil && (q.Where.hasNegZero() || q.WhereAll.hasNegZero())):
 		return ":negzero-float-key"
 	}
 	return ""
@@ -496,10 +520,20 @@ func (c *c11Case) checkQuery(q *c11Query, tx *sql.SQLTx, small *sql.Engine) sqlQ
 		return base
 	}
 	r.Eval(q.Kind+"|"+baseT.SQL, len(base.Rows) > 0)
+	if q.Gen != "" {
+		r.Count("q.gen." + q.Gen)
+		if base.Err == "" && q.Kind == "simple" && q.Limit < 0 {
+			r.Count("q.gen." + q.Gen + ".rows." + []string{"0", "1", "2-3", "4-7", "8-15", "16+"}[min(5, bitsLen(len(base.Rows)))])
+		}
+	}
+	if tx == nil && q.Frag == nil {
+		c.countShape(q)
+	}
 
-	// ORDER BY output sorted
+	// ORDER BY output sorted: on the unhinted (auto-chosen) plan first, under every hint below
 	if base.Err == "" && len(q.Ord) > 0 {
 		r.OracleChecks++
+		r.Count("oracle.sorted.unhinted")
 		if ok, at := c11Sorted(base.Rows, q.Ord, q.OrdDesc); !ok {
 			c.r.Fail("C11:orderby:not-sorted"+c.cause(q, base, base), fmt.Sprintf("[%s] row %d out of order: %s", baseT.String(), at, sqlRowsShow(base.Rows, 12)), c.replay(baseT.String(), "", "not sorted"))
 		}
@@ -507,6 +541,8 @@ func (c *c11Case) checkQuery(q *c11Query, tx *sql.SQLTx, small *sql.Engine) sqlQ
 	if q.Frag != nil {
 		return base
 	}
+	c.checkGroups(q, baseT, base)
+	c.planCorr(q, tx, nil, base)
 	// (2) every USE INDEX ON hint
 	idxs := append([]sqlIdx{{Cols: sc.PK}}, c.idxLive...)
 	for _, ix := range idxs {
@@ -521,8 +557,11 @@ func (c *c11Case) checkQuery(q *c11Query, tx *sql.SQLTx, small *sql.Engine) sqlQ
 			}
 			c.fail(sig, q, baseT, ht, base, hr, "result under a forced index differs from the unhinted plan")
 		}
+		c.checkGroups(q, ht, hr)
+		c.planCorr(q, tx, ix.Cols, hr)
 		if hr.Err == "" && len(q.Ord) > 0 {
 			r.OracleChecks++
+			r.Count("oracle.sorted.hinted")
 			if ok, at := c11Sorted(hr.Rows, q.Ord, q.OrdDesc); !ok {
 				c.r.Fail("C11:orderby:not-sorted"+c.cause(q, hr, hr), fmt.Sprintf("[%s] row %d out of order: %s", ht.String(), at, sqlRowsShow(hr.Rows, 12)), c.replay(ht.String(), "", "not sorted"))
 			}
@@ -551,11 +590,28 @@ func (c *c11Case) checkQuery(q *c11Query, tx *sql.SQLTx, small *sql.Engine) sqlQ
 			sig := "C11:filesort-differs"
 			na, nb := c11EmptyAsNull(base, false), c11EmptyAsNull(sr, false)
 			la, lb := c11EmptyAsNull(base, true), c11EmptyAsNull(sr, true)
+			// DISTINCT is applied above the sort: rows that the spill codec made equal ('' read back as NULL, BLOBs
+			// overwritten by later rows) are then merged, so the two results are compared as SETS for the attribution
+			bagOf := func(x sqlQRes) string {
+				if q.Kind != "distinct" {
+					return x.bag()
+				}
+				seen := map[string]bool{}
+				var ts []string
+				for _, t := range x.rowToks() {
+					if !seen[t] {
+						seen[t] = true
+						ts = append(ts, t)
+					}
+				}
+				sort.Strings(ts)
+				return x.Err + "|" + strings.Join(ts, ";")
+			}
 			switch {
-			case c.emptyStr && (na.bag() == nb.bag() || (q.Limit >= 0 && len(na.Rows) == len(nb.Rows))):
+			case c.emptyStr && (bagOf(na) == bagOf(nb) || (q.Limit >= 0 && len(na.Rows) == len(nb.Rows))):
 				// C15 finding: the spill codec writes '' as NULL (and then merges the chunks by the decoded values)
 				sig += ":empty-string-as-null"
-			case base.Err == "" && sr.Err == "" && la.bag() == lb.bag():
+			case base.Err == "" && sr.Err == "" && bagOf(la) == bagOf(lb):
 				sig += ":blob-values-corrupted"
 			default:
 				sig += c.cause(q, base, sr)
@@ -615,6 +671,7 @@ func (c *c11Case) checkQuery(q *c11Query, tx *sql.SQLTx, small *sql.Engine) sqlQ
 		if bad {
 			c.fail("C11:limit-offset:not-a-slice", q, baseT, nt, base, full, "LIMIT/OFFSET result is not the slice of the unlimited result")
 		}
+		c.checkLimitKeys(q, baseT, nt, base, full)
 	}
 	// COUNT(*) = number of rows
 	if q.Kind == "count" && base.Err == "" {
@@ -632,10 +689,11 @@ func (c *c11Case) checkQuery(q *c11Query, tx *sql.SQLTx, small *sql.Engine) sqlQ
 		r.OracleChecks++
 		if tot.Err == "" && len(tot.Rows) == 1 {
 			aggs := strings.Split(q.Select, ",")
+			gn := max(q.GroupN, 1)
 			for ai, a := range aggs {
 				var acc *c15Val
 				for _, row := range base.Rows {
-					v := row[1+ai]
+					v := row[gn+ai]
 					if v.null {
 						continue
 					}
@@ -711,6 +769,14 @@ func (c *c11Case) checkQuery(q *c11Query, tx *sql.SQLTx, small *sql.Engine) sqlQ
 
 var c11LimitZeroIsEmpty = false
 
+func bitsLen(n int) int {
+	k := 0
+	for ; n > 0; n >>= 1 {
+		k++
+	}
+	return k
+}
+
 // evaluation errors of a NULL boolean under NOT (ErrInvalidCondition) or AND/OR (ErrInvalidValue)
 func c11BoolErr(e string) bool { return e == "invalid-value" || e == "invalid-condition" }
 
@@ -779,6 +845,11 @@ func (c *c11Case) run(thorough bool) {
 		if multi {
 			n = 1 + rng.Intn(3)
 		}
+		if c.bulkLeft > 0 {
+			n = c.bulkLeft
+			r.Count("unit.bulk")
+		}
+		c.snapOK, c.tblSent = false, false
 		var tx *sql.SQLTx
 		if multi {
 			res := c.exec(nil, sqlPlain("BEGIN TRANSACTION"))
@@ -796,6 +867,10 @@ func (c *c11Case) run(thorough bool) {
 			d := sqlGenDML(rng, sc, do)
 			if len(c.rowsHint()) < 3 && rng.Intn(2) == 0 {
 				d = sqlGenDML(rng, sc, dmlOpts{G: do.G, P: do.P}) // bias to inserts when the table is small
+			}
+			if c.bulkLeft > 0 {
+				d = c.genBulk()
+				c.bulkLeft--
 			}
 			seedBase++
 			t1, t2 := d.text(sc, "t", seedBase), d.text(sc, "tw", seedBase)
@@ -847,6 +922,9 @@ func (c *c11Case) run(thorough bool) {
 					return
 				}
 				c.intxIdx = false
+				// the DML of this transaction may have used the unreliable in-tx index view (R1): a divergence of the
+				// twins is reported as such, and the twin comparison of the queries below is then skipped
+				c.twinCheck()
 				var after []sqlQRes
 				for i, q := range inTxQueries {
 					a := c.checkQuery(q, nil, small)
@@ -901,6 +979,8 @@ func (c *c11Case) run(thorough bool) {
 			var q *c11Query
 			if rng.Intn(4) == 0 {
 				q = c.genFragQuery()
+			} else if !c.noIdxRel && rng.Intn(100) < 45 {
+				q = c.genIdxRelQuery()
 			} else {
 				q = c.genQuery()
 			}
@@ -910,8 +990,20 @@ func (c *c11Case) run(thorough bool) {
 			}
 		}
 	}
+	// bulk units (rows sharing the leading index columns): one somewhere in the history, one near its end
+	bulkAt, bulkLate := -1, -1
+	if !c.noIdxRel && rng.Intn(100) < 75 {
+		bulkAt = rng.Intn(nUnits)
+	}
+	if !c.noIdxRel && rng.Intn(100) < 50 {
+		bulkLate = nUnits - 1 - rng.Intn(2)
+	}
 	for u := 0; u < nUnits; u++ {
+		if u == bulkAt || u == bulkLate {
+			c.bulkLeft = 4 + rng.Intn(5)
+		}
 		unit(nil, nil)
+		c.bulkLeft = 0
 		if u == nUnits/3 {
 			for _, ix := range later {
 				if must(sc.createIndex("t", ix)) {
@@ -939,6 +1031,8 @@ func (c *c11Case) run(thorough bool) {
 	for i := 0; i < 5; i++ {
 		if rng.Intn(4) == 0 {
 			qs = append(qs, c.genFragQuery())
+		} else if !c.noIdxRel && rng.Intn(100) < 45 {
+			qs = append(qs, c.genIdxRelQuery())
 		} else {
 			qs = append(qs, c.genQuery())
 		}
@@ -1032,6 +1126,10 @@ func (c *c11Case) twinCheck() {
 	a := sqlScan(c.env.eng, nil, c.sc, "t", nil)
 	b := sqlScan(c.env.eng, nil, c.sc, "tw", nil)
 	c.r.OracleChecks++
+	if a.Err == "" {
+		c.snap, c.snapOK = a.Rows, true
+		c.r.Count("table.rows." + []string{"0", "1", "2-3", "4-7", "8-15", "16+"}[min(5, bitsLen(len(a.Rows)))])
+	}
 	if a.bag() != b.bag() {
 		c.diverged = true
 		desc := fmt.Sprintf("after the same DML history t = %s %s but tw = %s %s", a.Err, sqlRowsShow(a.Rows, 12), b.Err, sqlRowsShow(b.Rows, 12))
@@ -1054,33 +1152,32 @@ func (c *c11Case) fragCorr(q *c11Query, base sqlQRes) {
 		c.r.Count("frag.skipped-negzero")
 		return
 	}
-	var cols []string
-	for _, col := range sc.Cols {
-		cols = append(cols, fmt.Sprintf("%s:%d", c15TyName(col.Ty), col.keyLen()))
-	}
-	pk := make([]string, len(sc.PK))
-	for i, p := range sc.PK {
-		pk[i] = strconv.Itoa(p)
-	}
-	c.r.Corr(fmt.Sprintf("c11 tbl %d %s pk %d %s", len(cols), strings.Join(cols, " "), len(pk), strings.Join(pk, " ")), "ok")
-	for _, row := range data.Rows {
-		ts := make([]string, len(row))
-		for i, v := range row {
-			ts[i] = v.tok()
-		}
-		c.r.Corr("c11 row "+strings.Join(ts, " "), "ok")
-	}
 	f := q.Frag
-	ix := make([]string, len(f.Idx))
-	for i, p := range f.Idx {
-		ix[i] = strconv.Itoa(p)
+	// `runIndex` models a scan of the FORCED index. The engine does not always scan it: a hint naming the primary
+	// key does not stop the equality-lookup fallback of genScanSpecs (`sortingIndex == table.primaryIndex`), which
+	// replaces it by a secondary index whose leading columns are bound by equality. Such a query goes to the
+	// planner model (`c11 plan` / `c11 pq`, which mirrors the fallback) instead of `c11 q`.
+	qt0 := q.text(q.Tmpl, "t", "r", "")
+	if pl := c.observePlan(nil, qt0); pl.Err == "" && base.Err == "" && fmt.Sprint(pl.Idx) != fmt.Sprint(f.Idx) {
+		c.r.Count("frag.forced-index-replaced-by-equality-lookup")
+		qq := *q
+		qq.Kind, qq.Limit, qq.Offset = "simple", f.Limit, f.Offset
+		c.planCorr(&qq, nil, f.Idx, base)
+	} else {
+		if !c.sendTable(data) {
+			return
+		}
+		ix := make([]string, len(f.Idx))
+		for i, p := range f.Idx {
+			ix[i] = strconv.Itoa(p)
+		}
+		ans := "rows " + strings.Join(base.rowToks(), ";")
+		if base.Err != "" {
+			ans = "err:" + base.Err
+		}
+		c.r.Corr(fmt.Sprintf("c11 q %d %s %s %d %d %s", len(ix), strings.Join(ix, " "), b01s(f.Desc), f.Limit, f.Offset, strings.Join(f.P.toks(), " ")), ans)
+		c.r.Count("frag.corr")
 	}
-	ans := "rows " + strings.Join(base.rowToks(), ";")
-	if base.Err != "" {
-		ans = "err:" + base.Err
-	}
-	c.r.Corr(fmt.Sprintf("c11 q %d %s %s %d %d %s", len(ix), strings.Join(ix, " "), b01s(f.Desc), f.Limit, f.Offset, strings.Join(f.P.toks(), " ")), ans)
-	c.r.Count("frag.corr")
 	// model-independent cross-check of the same query with the Go evaluator (engine semantics)
 	var want [][]c15Val
 	for _, row := range data.Rows {
@@ -1113,7 +1210,7 @@ func runC11(r *hx.Result, rng *hx.Rng, thorough bool, replay string) error {
 	}
 	c11ProbeLimitZero(r)
 	for i := 0; i < cases; i++ {
-		c := &c11Case{r: r, rng: rng.Fork()}
+		c := &c11Case{r: r, rng: rng.Fork(), noIdxRel: os.Getenv("VH_C11_IDXREL") == "0"}
 		c.run(thorough)
 		if i%10 == 9 {
 			if err := r.Flush(); err != nil {
@@ -1121,13 +1218,20 @@ func runC11(r *hx.Result, rng *hx.Rng, thorough bool, replay string) error {
 			}
 		}
 	}
-	for _, k := range []string{"variant.hint", "variant.twin", "variant.filesort", "variant.tx-vs-committed", "variant.restart", "variant.partition", "q.nonempty", "index.after-data", "index.before-data", "unit.multi"} {
+	must := []string{"variant.hint", "variant.twin", "variant.filesort", "variant.tx-vs-committed", "variant.restart", "variant.partition", "q.nonempty", "index.after-data", "index.before-data", "unit.multi"}
+	if os.Getenv("VH_C11_IDXREL") != "0" {
+		// the shapes the planner decisions depend on must have been reached, on the unhinted plan
+		must = append(must, "q.gen.idxrel", "unit.bulk", "oracle.sorted.unhinted", "plan.corr", "plan.rows-corr", "plan.order-by-without-sort-step", "plan.sort-step",
+			"shape.eq-lead.composite-index+order-by.not-covered", "shape.eq-lead.composite-index+order-by.pk-prefix", "shape.eq-lead.composite-index+group-by")
+	}
+	for _, k := range must {
 		if r.Distribution[k] == 0 {
 			r.Inconclusive = append(r.Inconclusive, "generator never produced class "+k)
 		}
 	}
 	r.Notes = append(r.Notes,
 		"search-only (outside the Lean fragment): joins, subqueries, GROUP BY/aggregates, DISTINCT, LIKE, mixed numeric constants, file sort, in-tx/restart equality",
+		"planner tie: index / DescOrder / presence of the sort step of every fragment SELECT (unhinted and hinted) are observed through RowReader.ScanSpecs() and the reader chain and compared with the Lean planOf; VH_C11_IDXREL=0 switches the index-relative generator and the bulk units off (measurement of the general generator alone)",
 		"engine semantics observed and used by the oracle: comparisons are two-valued with NULL as the least value; a NULL boolean at the top of WHERE drops the row, under NOT/AND/OR it is an evaluation error")
 	return nil
 }
